@@ -356,7 +356,7 @@ func runConc(p *pipeline.Pipeline, id string, seed int64, producers, perProducer
 				tv++
 				e.Name, e.V = "ingress/tcp", pi(tv)
 			default:
-				e.Name, e.V = "ingress/other", pi(1)
+				e.Name, e.V = []string{"ingress/other", "x/other"}[srnd.Intn(2)], pi(1)
 			}
 			cj++
 			acc := deliver(w, p, e, cj)
@@ -448,7 +448,7 @@ func main() {
 	per := flag.Int("per", 150, "conc: events per goroutine")
 	flag.Parse()
 	world.Chdir()
-	w, err := world.New(*work, nil, pipeline.Options{ConfigMapName: "ingress/cfg", TCPConfigMapName: "ingress/tcp", Gateway: true})
+	w, err := world.New(*work, nil, pipeline.Options{ConfigMapName: "ingress/cfg", TCPConfigMapName: "ingress/tcp", Gateway: true, PodNamespace: "ingress"})
 	if err != nil {
 		fmt.Fprintln(os.Stderr, err)
 		os.Exit(2)
